@@ -602,3 +602,8 @@ PROPERTIES["C01"]["outside"] = [o.replace("more than two packages", "more than t
 
 PROPERTIES["C10"]["runs"] += [dict(pkg="accumulation", files=PIPE_FILES, entry="Harness_P10V", args=dict(sample_every=3, max_samples=8))]
 PROPERTIES["C10"]["bounds"]["quick"] += "; P10V: 18 programs (receiver annotation x method body x receiver value), reported iff the annotation demands it"
+
+PROPERTIES["C14"]["runs"] += [dict(pkg="accumulation", files=PIPE_FILES, entry="Harness_P14S", args=dict(sample_every=1, max_samples=3))]
+PROPERTIES["C14"]["explanation"] += (" Single-line files (P14S): three one-line programs go through the same pipeline and the same obligations X1-X4 - a file with one line start "
+                                     "must not be mistaken for an importer-made fake file (defect 32).")
+PROPERTIES["C14"]["bounds"]["quick"] += "; three single-line programs"
